@@ -92,6 +92,10 @@ def recheck_native(job, v, res):
             return res['outs'][nm][k]
         spec = {sp[1]: sp for sp in _SIGS[signame].spec}
         rv = res['ret'] & ((1 << 64) - 1) if res['ret'] is not None else 0
+        try:
+            oracle.native_inputs = v['inputs']
+        except Exception:
+            pass
         props = oracle(get, rv, None, None)
         seen = False
         for (lab, pr) in props:
